@@ -188,7 +188,7 @@ class NumKernel(BaseKernel):
         Python int, or the group is drawn as ordinary floats -- so that integer arrays meet float arrays."""
         if self.typed != "int":
             return False
-        if name.startswith(("chi2_", "e_", "J_", "g_", "h_", "dx")):
+        if name.startswith(("chi2_", "e_", "J_", "g_", "h_", "dx", "tol")):
             return False        # values standing for RESULTS of cut code (edge contributions, solver output): floats, as the code produces them
         import re
         key = re.sub(r"[\d_]+$", "", re.sub(r"(\.q)[xyzw]$", r"\1", name))
